@@ -266,6 +266,7 @@ static bool wexp_run(const wexp_cfg *cf, const int *seq, int n, size_t cap, wexp
         binson_err e0 = w.error_flags;
         vf_progress++;
         wexp_alias_dst = dptr; wexp_alias_cap = cap; wexp_alias_used = ref.len - (noenc ? 0 : (np ? ref.len - pc[0].off : 0)); wexp_alias_ok = !failed && counter_defined;
+        vf_stack_paint();
         bool r = wexp_real_op(op, &w);
         wexp_alias_ok = false;
         if (counting) {
@@ -431,6 +432,7 @@ static bool wexp_run_huge(const int *seq, int n, size_t claim, wexp_mm *mm)
         wexp_ref_op(seq[i], &ref, pc);
         wexp_alias_ok = false;
         vf_progress++;
+        vf_stack_paint();
         bool r = wexp_real_op(seq[i], &w);
         bool want = seq[i] != WO_P2W_REFUSED;
         if (r != want || w.error_flags != BINSON_ERROR_NONE || binson_writer_get_counter(&w) != ref.len) {
@@ -471,8 +473,25 @@ static size_t wexp_one_seq(const wexp_cfg *cf, const int *seq, int m, const char
         if (!wexp_run(cf, seq, m, cap, &mm, true)) {
             /* determinism guard */
             wexp_mm m2, m3;
-            if (wexp_run(cf, seq, m, cap, &m2, false) || wexp_run(cf, seq, m, cap, &m3, false) || strcmp(m2.why, mm.why) || strcmp(m3.why, mm.why))
-                vf_die("writer violation did not reproduce: %s", mm.why);
+            m2.why[0] = m3.why[0] = 0;
+            bool ok2 = wexp_run(cf, seq, m, cap, &m2, false), ok3 = wexp_run(cf, seq, m, cap, &m3, false);
+            if (ok2 || ok3) {
+                /* not reproduced at once: a failure that comes and goes with identical inputs (every buffer and object here is filled with
+                 * fixed bytes before use) means the library's result depends on uninitialised memory - if it shows again within 6 more
+                 * runs it is reported as such, otherwise the harness gives up with an error */
+                int again = 0;
+                for (int t = 0; t < 6; t++) if (!wexp_run(cf, seq, m, cap, &m2, false)) again++;
+                if (!again) vf_die("writer violation did not reproduce: %s", mm.why);
+                snprintf(m3.why, sizeof m3.why, "%s", "(passes on some runs)");
+            }
+            if (ok2 || ok3 || strcmp(m2.why, mm.why) || strcmp(m3.why, mm.why)) {
+                /* the run fails every time but not in the same way: the library's output depends on something other than its inputs
+                 * (uninitialised memory); reported under one stable description */
+                char first[160];
+                snprintf(first, sizeof first, "%.150s", mm.why);
+                snprintf(mm.why, sizeof mm.why, "with identical inputs the sequence fails an oracle on some runs or in different ways from run to run (first: %s)", first);
+                snprintf(mm.sig, sizeof mm.sig, "unstable-failure");
+            }
             wexp_run(cf, seq, m, cap, &m2, false);  /* leaves wexp_* context set */
             wexp_report(sigprefix, &mm);
             break;
@@ -487,7 +506,15 @@ static size_t wexp_one_seq(const wexp_cfg *cf, const int *seq, int m, const char
             vf_count(CT_W_RUNS, 1);
             if (!wexp_run_huge(seq, m, claims[c], &mm)) {
                 wexp_mm m2;
-                if (wexp_run_huge(seq, m, claims[c], &m2) || strcmp(m2.why, mm.why)) vf_die("writer violation did not reproduce: %s", mm.why);
+                if (wexp_run_huge(seq, m, claims[c], &m2) || strcmp(m2.why, mm.why)) {
+                    int again = 0;
+                    for (int t = 0; t < 6; t++) if (!wexp_run_huge(seq, m, claims[c], &m2)) again++;
+                    if (!again) vf_die("writer violation did not reproduce: %s", mm.why);
+                    char first[160];
+                    snprintf(first, sizeof first, "%.150s", mm.why);
+                    snprintf(mm.why, sizeof mm.why, "with identical inputs the sequence fails an oracle on some runs or in different ways from run to run (first: %s)", first);
+                    snprintf(mm.sig, sizeof mm.sig, "unstable-failure");
+                }
                 wexp_report(sigprefix, &mm);
                 break;
             }
